@@ -335,6 +335,8 @@ def build_cases(tier):
         for lk in KINDS:
             add(method=m, nkinds=("lower",), lkinds=(lk,), var_bounds=vb)
         add(method=m, nkinds=("both", "none"), lkinds=("upper", "eq") if m != "cobyla" else ("upper", "both"), var_bounds=vb)
+        add(method=m, nkinds=("none", "lower"), var_bounds=vb)        # an unbounded constraint produces no row: later rows are renumbered
+        add(method=m, nkinds=("none", "lower", "lower"), lkinds=("none", "lower"), var_bounds=vb)
     # masks: rows touching a fixed variable are dropped, the rest restated on the free variables
     for m in ("slsqp", "differential_evolution"):
         add(method=m, N=3, mask=(True, False, True), lkinds=("both", "upper", "eq"),
